@@ -136,6 +136,14 @@ fn panic_msg(p: Box<dyn std::any::Any + Send>) -> String {
     }
 }
 
+/// MTU of the loopback interface (bounds the largest datagram the kernel accepts)
+fn lo_mtu() -> i64 {
+    std::fs::read_to_string("/sys/class/net/lo/mtu")
+        .ok()
+        .and_then(|s| s.trim().parse::<i64>().ok())
+        .unwrap_or(65536)
+}
+
 fn clamp(x: usize) -> i64 {
     x.min(0x7fff_ffff) as i64
 }
@@ -167,7 +175,7 @@ fn run_case(run: usize, c: &Case, out: &mut impl Write, pat: &mut Patience) {
         (Ok(a), Ok(b)) => (a, b),
         (a, b) => {
             emit!(json!({"ev":"Reset","run":run,"sk":c.sk,"rk":c.rk,"gso":0,"gro":0,"rx_gro":0,"sport":0,
-                         "iov":0,"bufsz":0,"batch":0}));
+                         "iov":0,"bufsz":0,"batch":0,"mtu":0}));
             emit!(json!({"ev":"SetupError","what":format!("{:?} {:?}", a.err(), b.err())}));
             return;
         }
@@ -182,7 +190,7 @@ fn run_case(run: usize, c: &Case, out: &mut impl Write, pat: &mut Patience) {
         Ok((Ok(a), Ok(b))) => (a, b),
         other => {
             emit!(json!({"ev":"Reset","run":run,"sk":c.sk,"rk":c.rk,"gso":0,"gro":0,"rx_gro":0,"sport":0,
-                         "iov":0,"bufsz":0,"batch":0}));
+                         "iov":0,"bufsz":0,"batch":0,"mtu":0}));
             match other {
                 Err(p) => emit!(json!({"ev":"Panic","where":"new","msg":panic_msg(p)})),
                 Ok((a, b)) => {
@@ -212,7 +220,7 @@ fn run_case(run: usize, c: &Case, out: &mut impl Write, pat: &mut Patience) {
     emit!(json!({"ev":"Reset","run":run,"sk":c.sk,"rk":c.rk,
                  "gso":clamp(tx_state.max_gso_segments()),"gro":clamp(rx_state.gro_segments()),
                  "rx_gro":c.rx_gro,"sport":sport,"iov":clamp(iov),"bufsz":clamp(c.bufsz),
-                 "batch":clamp(BATCH_SIZE),"mayfrag":tx_state.may_fragment()}));
+                 "batch":clamp(BATCH_SIZE),"mayfrag":tx_state.may_fragment(),"mtu":lo_mtu()}));
 
     let mut bufs: Vec<Vec<u8>> = (0..iov).map(|_| vec![0xEEu8; c.bufsz.max(1)]).collect();
     let mut metas = vec![RecvMeta::default(); iov];
@@ -363,10 +371,13 @@ fn main() {
         let s = open("v4").expect("socket");
         let st = UdpSocketState::new((&s).into()).expect("state");
         let s6 = open("v6").is_ok();
+        let _ = st.set_recv_buffer_size((&s).into(), 4 << 20);
+        let rcvbuf = st.recv_buffer_size((&s).into()).unwrap_or(0);
         println!(
             "{}",
             json!({"gso":st.max_gso_segments(),"gro":st.gro_segments(),"batch":BATCH_SIZE,
-                   "mayfrag":st.may_fragment(),"v6":s6})
+                   "mayfrag":st.may_fragment(),"v6":s6,"mtu":lo_mtu(),
+                   "rcvbuf":rcvbuf})
         );
         return;
     }
